@@ -416,7 +416,7 @@ type Contract struct {
 var clauseKeywords = map[string]bool{
 	"func": true, "extern": true, "property": true, "uses": true, "requires": true, "ensures": true,
 	"modifies": true, "decreases": true, "loop": true, "invariant": true, "trusted": true, "pure": true,
-	"maypanic": true, "lemma": true, "hint": true,
+	"maypanic": true, "lemma": true, "hint": true, "hintafter": true,
 }
 
 // parseContractFile reads //@ lines.
@@ -485,7 +485,7 @@ func parseContractFile(path, pkg, text string) ([]*Contract, error) {
 				return err
 			}
 			cur.Ensures = append(cur.Ensures, c)
-		case "hint":
+		case "hint", "hintafter":
 			parts := strings.SplitN(body, " ", 2)
 			if len(parts) != 2 {
 				return fmt.Errorf("%s:%d: hint needs a call site and a formula", path, pd.line)
@@ -498,6 +498,9 @@ func parseContractFile(path, pkg, text string) ([]*Contract, error) {
 			}
 			if cur.Hints == nil {
 				cur.Hints = map[string][]Clause{}
+			}
+			if kw == "hintafter" {
+				site = "after:" + site
 			}
 			cur.Hints[site] = append(cur.Hints[site], c)
 		case "lemma":
